@@ -18,7 +18,7 @@ func init() { register(&Spec{ID: "C20", Targets: []load.Target{load.Linux}, Run:
 
 func runC20(c *core.Ctx) {
 	runFixtures(c, "drop", "walkloop")
-	c.Explain("Whether the conformance suite fails on each of ~60 deviant file systems is a statement about executions (mutation adequacy) and cannot be decided without running the suite, which this family may not do. Decided are properties of the suite's own code whose violation makes it blind: (R20.1) every exported scenario func Test*(testing.TB, FSOptions) of package fstest is registered in the FS or File runner; (R20.2) every exported internal/assert helper and every FSOptions.assert* method returning bool reports through tb.Error/Errorf/Fatal* (or a helper that does) on every path that returns false, and has at least one such path; (R20.3) mode comparisons keep all bits when Constraints.FileModeMask is its zero value ('disables checks on the specified bits, defaults to checking all'); (R20.4) the final-tree comparison is an equality, not a subset test; (R20.5) the skip data is collected after the parallel subtests have run; (R20.6) package fstest writes no package-level variable outside init (the verdict depends only on the FS under test); (R20.7) no subtest closure that goes parallel captures a loop variable that is one cell shared by all iterations under the module's language version (< go1.22) — such subtests all run against the last table row and the other rows are never checked; (R20.8) the helpers comparing an error with an expected *PathError/*LinkError type-assert the error value itself and do not search its chain with errors.As; (R20.9) the harness that runs tasks concurrently starts all goroutines before it waits (no WaitGroup.Wait inside the starting loop); (R20.10, contradiction rule) in every subtest closure, if the error of an operation of the library reaches an assertion on one path it does so on every path from the operation to the end of the subtest (skips excepted). The property itself (acceptance of the references, rejection of deviants) is (R20.11) no by-name listing is sorted before it is asserted on; (R20.12) errors.Is is applied in one direction, observed against expected; (R20.13) a subset assertion between two observed listings has its converse or a distinctness assertion. (R20.14) every return of the tree comparison follows the walk; (R20.15) every TestFile<Op> scenario reaches <Op> on a file handle; (R20.16) the tree walk records every listed entry; (R20.17) functions that skip consult no sentinel but ErrNotImplemented; (R20.18) read-back buffers are freshly made. NOT claimed.")
+	c.Explain("Whether the conformance suite fails on each of ~60 deviant file systems is a statement about executions (mutation adequacy) and cannot be decided without running the suite, which this family may not do. Decided are properties of the suite's own code whose violation makes it blind: (R20.1) every exported scenario func Test*(testing.TB, FSOptions) of package fstest is registered in the FS or File runner; (R20.2) every exported internal/assert helper and every FSOptions.assert* method returning bool reports through tb.Error/Errorf/Fatal* (or a helper that does) on every path that returns false, and has at least one such path; (R20.3) mode comparisons keep all bits when Constraints.FileModeMask is its zero value ('disables checks on the specified bits, defaults to checking all'); (R20.4) the final-tree comparison is an equality, not a subset test; (R20.5) the skip data is collected after the parallel subtests have run; (R20.6) package fstest writes no package-level variable outside init (the verdict depends only on the FS under test); (R20.7) no subtest closure that goes parallel captures a loop variable that is one cell shared by all iterations under the module's language version (< go1.22) — such subtests all run against the last table row and the other rows are never checked; (R20.8) the helpers comparing an error with an expected *PathError/*LinkError type-assert the error value itself and do not search its chain with errors.As; (R20.9) the harness that runs tasks concurrently starts all goroutines before it waits (no WaitGroup.Wait inside the starting loop); (R20.10, contradiction rule) in every subtest closure, if the error of an operation of the library reaches an assertion on one path it does so on every path from the operation to the end of the subtest (skips excepted). The property itself (acceptance of the references, rejection of deviants) is (R20.11) no by-name listing is sorted before it is asserted on; (R20.12) errors.Is is applied in one direction, observed against expected; (R20.13) a subset assertion between two observed listings has its converse or a distinctness assertion. (R20.14) every return of the tree comparison follows the walk; (R20.15) every TestFile<Op> scenario reaches <Op> on a file handle; (R20.16) the tree walk records every listed entry; (R20.17) functions that skip consult no sentinel but ErrNotImplemented; (R20.18) read-back buffers are freshly made. (R20.19) compared strings are not lexically normalised first. NOT claimed.")
 	c.Assume("testing.TB.Error/Errorf/Fatal/Fatalf/FailNow/Fail mark the test failed")
 	c.RuleDoc("R20.1", "every scenario is registered")
 	c.RuleDoc("R20.2", "assertion helpers can fail and always report")
@@ -31,6 +31,7 @@ func runC20(c *core.Ctx) {
 	c.RuleDoc("R20.11", "the suite never sorts a by-name listing before asserting on it")
 	c.RuleDoc("R20.16", "the tree walk records every listed entry: no iteration of its loop ends without the entry in the observed map")
 	c.RuleDoc("R20.17", "a scenario is skipped for ErrNotImplemented only")
+	c.RuleDoc("R20.19", "compared strings are not lexically normalised first")
 	c.RuleDoc("R20.18", "bytes read back from the file system under test land in a fresh buffer, never in one that already holds the expected bytes")
 	c.RuleDoc("R20.14", "the tree comparison walks the file system under test on every path")
 	c.RuleDoc("R20.15", "every TestFile<Op> scenario calls <Op> on a file handle")
@@ -61,6 +62,7 @@ func runC20(c *core.Ctx) {
 		r20WalkRecordsEveryEntry(c, p)
 		r20SkipOnlyNotImplemented(c, p)
 		r20ReadIntoFreshBuffers(c, p)
+		r20NoLexicalNormalisation(c, p)
 		r20FileScenarioCallsFileMethod(c, p)
 		r20ErrorAssertedOnEveryPath(c, p)
 	}
@@ -81,6 +83,7 @@ func runC20(c *core.Ctx) {
 	c.Floor("R20.16", 1)
 	c.Floor("R20.17", 1)
 	c.Floor("R20.18", 10)
+	c.Floor("R20.19", 1)
 	c.Floor("R20.15", 8)
 }
 
@@ -1235,4 +1238,29 @@ func r20ReadIntoFreshBuffers(c *core.Ctx, p *load.Program) {
 				fmt.Sprintf("%s reads into a buffer that was made from a string (the bytes it wrote or expects): if the read stores nothing — the write was dropped by the file system under test, or the read failed and its results are ignored — the buffer still holds the expected bytes and the comparison passes", fname(fn)))
 		})
 	}
+}
+
+// r20NoLexicalNormalisation (R20.19): the suite compares the strings the file system returned: no function of package
+// fstest passes a value through path.Clean, filepath.Clean, strings.ToLower/ToUpper/TrimSpace/Trim*: an error path
+// "./foo" or "foo/" is a deviation the suite's scenarios exercise and must fail.
+func r20NoLexicalNormalisation(c *core.Ctx, p *load.Program) {
+	bad := ""
+	for _, fn := range pkgFuncs(p, "fstest") {
+		ssax.Instrs(fn, func(ins ssa.Instruction) {
+			cl, ok := ins.(*ssa.Call)
+			if !ok || bad != "" {
+				return
+			}
+			callee := ssax.StaticCallee(cl)
+			if callee == nil || callee.Pkg == nil {
+				return
+			}
+			switch callee.Pkg.Pkg.Path() + "." + callee.Name() {
+			case "path.Clean", "path/filepath.Clean", "strings.ToLower", "strings.ToUpper", "strings.TrimSpace", "strings.TrimSuffix", "strings.TrimRight", "strings.TrimLeft", "strings.Trim", "path/filepath.ToSlash":
+				bad = fname(fn) + " calls " + callee.Name() + " at " + p.Pos(cl.Pos())
+			}
+		})
+	}
+	c.Check(bad == "", "R20.19", "fstest|observed-strings-compared-as-returned", "-", "no lexical normalisation of compared strings",
+		fmt.Sprintf("%s: a string the file system returned (an error's path) is normalised before it is compared, so a file system that answers \"./foo\", \"foo/\" or \"a//b\" where the reference answers \"foo\" is accepted", bad))
 }
